@@ -20,19 +20,23 @@ Definition spec_matches (fl : rflags) (h : hir) (mem : list N) (out : list (N * 
   && forallb (fun ol => len_choice_ok (Lens fl mem h (fst ol)) (snd ol)) out.
 
 (* per input: (corr, spec, kf) *)
-Definition one_input (d : sdesc) (h : hir) (mem : list N) (out : list (N * N)) : bool * bool * bool :=
+Definition one_input (d : sdesc) (h : hir) (mem : list N) (out : list (N * N)) : bool * bool * N :=
   (matches_eqb out (model_scan d mem default_max_nb),
    spec_matches (flags_of (s_mods d)) h mem out,
-   kf_start_position d mem default_max_nb).
+   if kf_start_position d mem default_max_nb then 1 else 0).
 
-Definition combine (rs : list (bool * bool * bool)) (pre_corr pre_spec : bool) : bool * bool * N :=
-  let corr := pre_corr && forallb (fun r => fst (fst r)) rs in
-  let spec := pre_spec && forallb (fun r => snd (fst r)) rs in
-  let excused := pre_spec && forallb (fun r => snd (fst r) || snd r) rs in
-  (corr, spec, if negb spec && excused then 1 else 0).
+(* rs: per input (corr, spec, known-finding class of the input, 0 = none).  The case is in a known
+   class only if every input that fails the spec is; the class reported is the largest one met. *)
+Definition combine (rs : list (bool * bool * N)) (pre_corr pre_spec : bool) : bool * bool * N :=
+  let corr := pre_corr && forallb (fun r : bool * bool * N => fst (fst r)) rs in
+  let spec := pre_spec && forallb (fun r : bool * bool * N => snd (fst r)) rs in
+  let excused := pre_spec && forallb (fun r : bool * bool * N => snd (fst r) || negb (snd r =? 0)) rs in
+  (corr, spec,
+   if negb spec && excused
+   then fold_left N.max (map (fun r : bool * bool * N => if snd (fst r) then 0 else snd r) rs) 0 else 0).
 
 Fixpoint zip_inputs (d : sdesc) (h : hir) (ins : list (list N)) (outs : list (list (N * N)))
-  : list (bool * bool * bool) :=
+  : list (bool * bool * N) :=
   match ins, outs with
   | m :: ir, o :: or => one_input d h m o :: zip_inputs d h ir or
   | _, _ => []
@@ -45,3 +49,59 @@ Definition C02_case (toks : list token) (d : sdesc) (ins : list (list N)) (outs 
   combine (zip_inputs d h ins outs)
           (hir_eqb (s_hir d) h && (length ins =? length outs)%nat)
           (wf_hex toks).
+
+(* ------------------------------------------------------------------ C03: regex strings *)
+(* member lengths at offset o that respect `fullword`, for the plain and for the wide reading *)
+Definition members_at (md : mods) (h : hir) (mem : list N) (o : N) : list N * list N :=
+  (if m_ascii md
+   then filter (fun l => validate_fullword md mem o (o + l) MAscii) (Lens (flags_of md) mem h o) else [],
+   if m_wide md
+   then filter (fun l => validate_fullword md mem o (o + l) MWideStandard) (Lens (wide_flags_of md) mem h o) else []).
+
+Definition spec_regex (md : mods) (h : hir) (mem : list N) (out : list (N * N)) : bool :=
+  list_eqb N.eqb (map fst out)
+           (filter (fun o => let (a, w) := members_at md h mem o in nonempty a || nonempty w) (iota 0 (nlen mem)))
+  && forallb (fun ol => let (a, w) := members_at md h mem (fst ol) in
+                        (mem_N (snd ol) a && len_choice_ok a (snd ol))
+                        || (mem_N (snd ol) w && len_choice_ok w (snd ol))) out.
+
+(* known finding "fullword, single length": under `fullword` the engine validates one length per
+   start (the leftmost-first one) and drops the start when that length is not delimited, although
+   another member length at the same start is.  Class: `fullword` and some offset of the input has
+   both a delimited and an undelimited member length. *)
+Definition kf_fullword_other_length (md : mods) (h : hir) (mem : list N) : bool :=
+  m_fullword md &&
+  existsb (fun o =>
+    let amb (lens : list N) (mt : mtype) :=
+      existsb (fun l => check_fullword mem o (o + l) mt) lens
+      && existsb (fun l => negb (check_fullword mem o (o + l) mt)) lens in
+    (m_ascii md && amb (Lens (flags_of md) mem h o) MAscii)
+    || (m_wide md && amb (Lens (wide_flags_of md) mem h o) MWideStandard))
+  (iota 0 (nlen mem)).
+
+Definition one_input_re (d : sdesc) (h : hir) (mem : list N) (out : list (N * N)) : bool * bool * N :=
+  (matches_eqb out (model_scan d mem default_max_nb),
+   spec_regex (s_mods d) h mem out,
+   if kf_fullword_other_length (s_mods d) h mem then 2
+   else if kf_start_position d mem default_max_nb then 1 else 0).
+
+Fixpoint zip_inputs_re (d : sdesc) (h : hir) (ins : list (list N)) (outs : list (list (N * N)))
+  : list (bool * bool * N) :=
+  match ins, outs with
+  | m :: ir, o :: or => one_input_re d h m o :: zip_inputs_re d h ir or
+  | _, _ => []
+  end.
+
+(* the `matches` operator: Regex::is_match on the subject, flags /i /s only *)
+Definition model_is_match (ci da : bool) (h : hir) (subject : list N) : bool :=
+  is_match {| nocase := ci; dot_all := da; wide := false |} subject h.
+
+(* n: the regex AST; ci/da: the /i /s flags; d: compiled string description; subjects with verdicts *)
+Definition C03_case (n : node) (ci da : bool) (d : sdesc) (ins : list (list N)) (outs : list (list (N * N)))
+           (subjects : list (list N * bool)) : bool * bool * N :=
+  let h := node_to_hir n in
+  let ok_subjects := forallb (fun sv => Bool.eqb (snd sv) (model_is_match ci da h (fst sv))) subjects in
+  combine (zip_inputs_re d h ins outs)
+          (hir_eqb (s_hir d) h && (length ins =? length outs)%nat && ok_subjects
+           && Bool.eqb (m_dot_all (s_mods d)) da && (negb ci || m_nocase (s_mods d)))
+          ok_subjects.
